@@ -133,17 +133,21 @@ fn c10_dfs_negated_query_keeps_subgoal_facts() -> (bool, String) {
 
 fn negated_query_search(strategy: SearchStrategy) -> (bool, String) {
     quiet(|| {
+        // every set of <= 3 rules of the pool (thorough tier: every subset of the pool), in the order a; a,b; a,b,c; ..
         let n = POOL.len();
+        let max_size = crate::bound(3, 8);
         let mut sets: Vec<Vec<usize>> = Vec::new();
-        for a in 0..n {
-            sets.push(vec![a]);
-            for b in a + 1..n {
-                sets.push(vec![a, b]);
-                for c in b + 1..n {
-                    sets.push(vec![a, b, c]);
+        fn extend(v: &mut Vec<Vec<usize>>, cur: &mut Vec<usize>, from: usize, n: usize, max_size: usize) {
+            for a in from..n {
+                cur.push(a);
+                v.push(cur.clone());
+                if cur.len() < max_size {
+                    extend(v, cur, a + 1, n, max_size);
                 }
+                cur.pop();
             }
         }
+        extend(&mut sets, &mut Vec::new(), 0, n, max_size);
         let mut queries = Vec::new();
         for fld in ["P", "Q", "G"] {
             for b in [true, false] {
@@ -195,10 +199,11 @@ fn negated_query_search(strategy: SearchStrategy) -> (bool, String) {
         (
             false,
             format!(
-                "{:?}: {} negated queries ({} rule sets x 3 start states x max_depth 1/3/5 x 6 goals): {} reported not provable, all with facts and undo-frame stack unchanged; {} errored or panicked (nothing reported: skipped)",
+                "{:?}: {} negated queries ({} rule sets of <= {} rules out of 8 x 3 start states x max_depth 1/3/5 x 6 goals): {} reported not provable, all with facts and undo-frame stack unchanged; {} errored or panicked (nothing reported: skipped)",
                 strategy,
                 asked,
                 sets.len(),
+                max_size,
                 failed,
                 skipped
             ),
